@@ -132,10 +132,10 @@ def post(s, a, rt):
         return fails   # the class cannot be instantiated without a listener that provides a named callback
     import warnings
     start = len(rt.lines)
+    first, old_model = rt.sm, rt.model
     try:
         with warnings.catch_warnings():
             warnings.simplefilter("ignore")
-            first = rt.sm
             model_b = rt.model_cls()
             old_model, rt.model = rt.model, model_b
             rt.initial_tid = rt.next_tid
@@ -151,7 +151,13 @@ def post(s, a, rt):
                         pass
             rt.model = old_model
             rt.sm = first
-    except Exception as e:
+    except BaseException as e:
+        if isinstance(e, (KeyboardInterrupt, SystemExit)):
+            raise
+        rt.model, rt.sm = old_model, first
+        del rt.lines[start:]
+        if isinstance(e, (eng.UserExc, eng._Tagged)):
+            return fails      # a scripted callback failure during the second instance's activation: not our subject
         return [f"C12: second instance could not be driven: {type(e).__name__}: {e}"]
     for l in rt.lines[start:]:
         p = l.split(" ")
